@@ -39,6 +39,18 @@ CHECKS["C20"] = dict(cat="model_checking", ref="DESIGN.md 4/C20",
     text="The whole Read Device Identification request/response chain (ServerDecoder -> execute -> DeviceInformationFactory -> encode with _encode_object space accounting) is executed symbolically over identity objects of SYMBOLIC length 0..245 and symbolic content: every PDU <= 253 bytes, chain terminates, union of pages = exactly the configured non-empty objects of the category from the start id, each once; response bytes equal header + claimed objects for concrete length vectors incl. boundary lengths; individual access returns exactly the object.",
     note="Populated object-id sets are concrete per obligation (dictionary keys). With symbolic lengths paging is decided on lengths and header fields (byte equality would make the engine enumerate lengths); byte-level consistency is decided for the concrete length vectors listed. A 245-byte object (fits no PDU) is a listed known finding. Client-side decoding is C01's obligation.",
     technique=TECH)
+CHECKS["C06"] = dict(cat="model_checking", ref="DESIGN.md 4/C06",
+    text="The receive paths of the TCP, RTU, ASCII and binary framers are executed symbolically on streams of 1-2 valid frames (all field values, unit ids, transaction ids symbolic) under EVERY schedule with 0, 1 or 2 cuts (thorough: 3 cuts and single-byte delivery; empty reads included): callbacks equal the stream's messages in order and nothing escapes processIncomingPacket. z3 decides each path for all frame contents.",
+    note="Cut positions are enumerated concretely inside each obligation, contents are symbolic. Frames <= 13 bytes. On the unchanged tree only ASCII reassembles split frames: TCP split frames, RTU/binary split or multiple frames per read are listed known findings (their obligations are kept and reported as such).",
+    technique=TECH)
+CHECKS["C07"] = dict(cat="model_checking", ref="DESIGN.md 4/C07",
+    text="For ANY buffer of the stated length handed to a fresh receiver (all bytes symbolic except the function-code position), every delivered message is the decoder's result for a PDU that a frame in the buffer carries with a valid integrity check (CRC low byte first / LRC over valid hex / consistent MBAP length) and with the delivered unit/transaction ids - decided by z3 over all buffers, which subsumes every corruption, truncation and extension of valid frames. SMT lemmas K5 prove that CRC-16/Modbus detects all 1-3 bit errors and all bursts <= 16 bits and that the LRC detects every single-character change, for frames of the stated size.",
+    note="Buffers: RTU 8-9, binary 10, TCP 9/12, ASCII 11/17 bytes in quick (more lengths and function codes in thorough); one read. CRC/LRC appear as contracts (K1/K2 tie them to the standards). The decoder is observed through a recording wrapper. Two listed known findings: TCP headerless error frames, ASCII lenient LRC field.",
+    technique=TECH)
+CHECKS["C11"] = dict(cat="model_checking", ref="DESIGN.md 4/C11",
+    text="Liveness reduced to bounded safety and decided symbolically: from the state an arbitrary garbage chunk (arbitrary bytes, bad-checksum frame, foreign-unit frame, truncated frame, lone delimiters; contents symbolic) leaves in an RTU/ASCII/binary receiver, four valid frames are read one (or two) per read; the 3rd and 4th are delivered as the frame's own message and the backlog stays <= garbage + one frame.",
+    note="Garbage <= 8 bytes in one read; receiver = framer + the serial handlers' reset-on-exception rule. With the CRC uninterpreted, checksum-valid windows straddling garbage and valid traffic are assumed away (1 in 65536 per window for the real CRC). ASCII deafness after a rejected complete frame and RTU/binary one-frame-per-read are listed known findings.",
+    technique=TECH)
 NA_REASON = "check not built yet in this revision (work in progress; see DESIGN.md build order)"
 
 def main():
